@@ -80,7 +80,8 @@ def finish(prop, tier, seed, level, obligations, t0, explanation, trusted_base, 
            extra_cov=None, samples=None, infra_errors=None, bounded_stats=None):
     """Print lines, write replay + evidence files, return exit code."""
     known = load_known()
-    os.makedirs(os.path.join(VERIF, 'evidence'), exist_ok=True)
+    evdir = os.environ.get('VERIF_EVIDENCE_DIR') or os.path.join(VERIF, 'evidence')   # seed evaluations redirect this so that they never overwrite real evidence
+    os.makedirs(evdir, exist_ok=True)
     failed = [o for o in obligations if o.status == 'failed']
     undecided = [o for o in obligations if o.status == 'undecided']
     discharged = [o for o in obligations if o.status == 'discharged']
@@ -151,7 +152,7 @@ def finish(prop, tier, seed, level, obligations, t0, explanation, trusted_base, 
         'wall_s': round(time.time() - t0, 2),
         'violations': len(violations),
     }
-    with open(os.path.join(VERIF, 'evidence', prop + '.json'), 'w') as f:
+    with open(os.path.join(evdir, prop + '.json'), 'w') as f:
         json.dump(ev, f, indent=1)
     if violations:
         return 1
